@@ -23,7 +23,7 @@ CLAIMED = {
         note=NOTE + "serde visitors (DynVal shape-directed seeds in the harness), from_utf8",
         design="4 (C03)"),
     'C04': dict(
-        text="C04_total_in_bounds: for every byte string and shape, the decoder over the raw-pointer slice flavour (cursor/end indices; an out-of-range read is Fault, an over-wide shift or bad slice is Panic) equals the reference decoder and returns a value or an error only - proved through a generic flavour-simulation theorem (de_sim) and the invariant cursor <= end = len; borrowed strings/bytes are the sub-list of the input at the cursor (C04_borrowed_in_input); the sequence size hint never exceeds the remaining bytes (C04_hint_sound, rule translated from the source). Partial: the machine-level effect of the unsafe reads and the real allocator are observed by the harness (inputs flush against PROT_NONE pages on either side, counting allocator, adversarial length prefixes), not proved.",
+        text="C04_total_in_bounds: for every byte string and shape, the decoder over the raw-pointer slice flavour (cursor/end indices; an out-of-range read is Fault, an over-wide shift or bad slice is Panic) equals the reference decoder and returns a value or an error only - proved through a generic flavour-simulation theorem (de_sim) and the invariant cursor <= end = len; borrowed strings/bytes are the sub-list of the input at the cursor (C04_borrowed_in_input); the sequence size hint never exceeds the remaining bytes (C04_hint_sound, rule translated from the source); C04_decoded_size_linear: for every shape without zero-width collection elements and every input, whatever lengths it claims, the size of the value a successful decode returns (nodes + string/byte content) is at most slope(shape) * consumed bytes + offset(shape) - the allocation clause for successful decodes, by a compositional 'bounded parser' argument in which every loop round consumes at least one byte. Partial: the machine-level effect of the unsafe reads and the real allocator are observed by the harness (inputs flush against PROT_NONE pages on either side, counting allocator, adversarial length prefixes), not proved.",
         note=NOTE + "the unsafe pointer reads themselves (indices into a list in the model), serde's collection visitors and size_hint::cautious, the allocator",
         design="4 (C04)"),
     'C05': dict(
@@ -51,7 +51,7 @@ CLAIMED = {
         note=NOTE + "crate crc (table-driven Digest) as the bitwise Rocksoft model, compared on every frame",
         design="5 (C10)"),
     'C11': dict(
-        text="C11_to_io_is_encode / C11_to_io_failure / C11_writer_prefix (writer receives exactly the plain encoding; a failing writer gives an error and holds a prefix), C11_from_io_is_slice (reader path = slice path, reader left holding exactly the bytes after the message), C11_from_io_total (any failing reader, any scratch size: value or error, never a panic or a write outside the scratch), C11_scratch_slots (borrowed data in consecutive disjoint slots). Partial: piecewise delivery inside read_exact/write_all is modelled; the harness drives real std::io readers/writers with 1-byte/short/whole schedules and failure injection at every offset.",
+        text="C11_to_io_is_encode / C11_to_io_failure / C11_writer_prefix (writer receives exactly the plain encoding; a failing writer gives an error and holds a prefix), C11_from_io_is_slice (reader path = slice path, reader left holding exactly the bytes after the message), C11_from_io_total (any failing reader, any scratch size: value or error, never a panic or a write outside the scratch), C11_scratch_slots (borrowed data in consecutive disjoint slots); C11_any_chunking_is_slice: for EVERY schedule by which a reader hands over its data piecewise (any chunk sizes, any interruptions), decoding through std's read_exact loop (modelled, IoChunks.v) equals slice decoding and consumes exactly the message; C11_any_schedule_total: with end-of-stream reports or failures at any call it is a value or an error and the loop terminates. The modelled loop is tied to the real one by replaying, event by event, what the harness's reader did on each run (op fromioc). Partial: write_all over partial writes and the embedded-io adapters are exercised / not built, not modelled; the harness drives real std::io readers/writers with 1-byte/short/whole schedules, interruptions and failure injection at every offset.",
         note=NOTE + "std::io::{Read::read_exact, Write::write_all, flush}; embedded-io adapters are not yet exercised",
         design="6 (C11)"),
     'C12': dict(
